@@ -91,11 +91,36 @@ def build(stream, p):
         forms = [seed, np.int64(seed), np.uint32(seed), np.uint64(seed)] if seed < 2 ** 32 else [seed]
         s1 = forms[(k + seed) % len(forms)]
         s2 = forms[(k + seed + 1) % len(forms)]
-        first = dsw.create_random_shuffles(observed_length=k, random_seed=s1)
+        if (k * 7 + seed) % 3 == 0:
+            # an earlier call for the SAME table that dies half-way (progress output to a stream that breaks: a closed pipe, a console
+            # that cannot encode the bar): whatever it leaves behind must not change what the next call returns
+            import sys
+
+            class Broken:
+                def __init__(self, ok):
+                    self.ok = ok
+
+                def write(self, x):
+                    self.ok -= 1
+                    if self.ok < 0:
+                        raise BrokenPipeError("progress stream closed")
+                    return len(x)
+
+                def flush(self):
+                    pass
+            old_out = sys.stdout
+            sys.stdout = Broken(1 + (seed % 5))
+            try:
+                dsw.create_random_shuffles(observed_length=k, random_seed=s1, verbose=True)
+            except BrokenPipeError:
+                pass
+            finally:
+                sys.stdout = old_out
+        first = gen.api("create_random_shuffles", observed_length=k, random_seed=s1)
         a = first.copy()
         first[...] = 0                 # the returned table belongs to the caller: overwriting it must not affect later calls
         np.random.random(size=3)       # disturb the global random state between the two calls
-        b = dsw.create_random_shuffles(observed_length=k, random_seed=s2)
+        b = gen.api("create_random_shuffles", observed_length=k, random_seed=s2)
         return a, b
 
     def oracle(ans, raw):
